@@ -176,6 +176,34 @@ func c13Catalogue(maxChain int) []option {
 			return p, []gen.Plant{gen.P(gen.J{"name": "q" + strconv.Itoa(inst), "in": in, "type": typ}, p...)}
 		})
 	}
+	// shared parameters / responses whose names need escaping in a JSON pointer or a URL, and owners under such path templates
+	for _, nm := range []string{"a/b", "t~x", "pet owner", "ü", "h#", "q?", "{c}", "b[0]"} {
+		nm := nm
+		add("sharedParamNamed["+nm+"]", func(inst int, typ string) ([]string, []gen.Plant) {
+			p := []string{"parameters", nm + strings.Repeat("x", inst)}
+			return p, []gen.Plant{gen.P(gen.J{"name": "q", "in": "query", "type": typ}, p...)}
+		})
+		add("sharedHeaderNamed["+nm+"]", func(inst int, typ string) ([]string, []gen.Plant) {
+			p := []string{"responses", nm + strings.Repeat("x", inst), "headers", "X-H"}
+			return p, []gen.Plant{gen.P(gen.J{"type": typ}, p...), gen.P(gen.J{"description": "d"}, p[:2]...)}
+		})
+	}
+	for _, spt := range []string{"/~a/{b}", "/a b/{x}", "/ü/q?"} {
+		spt := spt
+		add("opParamAtPath["+spt+"]", func(inst int, typ string) ([]string, []gen.Plant) {
+			p := []string{"paths", spt, "put", "parameters", strconv.Itoa(inst)}
+			return p, []gen.Plant{gen.P(gen.J{"name": "q" + strconv.Itoa(inst), "in": "query", "type": typ}, p...),
+				gen.P(gen.J{"description": "ok"}, "paths", spt, "put", "responses", "200")}
+		})
+		add("pathParamAtPath["+spt+"]", func(inst int, typ string) ([]string, []gen.Plant) {
+			p := []string{"paths", spt, "parameters", strconv.Itoa(inst)}
+			return p, []gen.Plant{gen.P(gen.J{"name": "q" + strconv.Itoa(inst), "in": "header", "type": typ}, p...)}
+		})
+		add("codeHeaderAtPath["+spt+"]", func(inst int, typ string) ([]string, []gen.Plant) {
+			p := []string{"paths", spt, "get", "responses", "200", "headers", "X-H" + strings.Repeat("x", inst)}
+			return p, []gen.Plant{gen.P(gen.J{"type": typ}, p...), gen.P(gen.J{"description": "ok"}, p[:5]...)}
+		})
+	}
 	for mi, m := range oracle.Methods7 {
 		m := m
 		ins := []string{locs[mi%4]}
@@ -230,6 +258,9 @@ func c13Catalogue(maxChain int) []option {
 			}})
 			for depth := 1; depth <= 3; depth++ {
 				d := depth
+				if d > 1 && (strings.Contains(ow.label, "Named[") || strings.Contains(ow.label, "AtPath[")) {
+					continue // names and path templates: the owner itself and one level of items
+				}
 				opts = append(opts, option{Label: fmt.Sprintf("%s@%s/items%d", kw, ow.label, d), Plants: func(inst, pi int) []gen.Plant {
 					p, ctx := ow.plants(inst, "array")
 					pl := append([]gen.Plant(nil), ctx...)
